@@ -289,8 +289,8 @@ fn c10_ops(max: usize) -> BoxedStrategy<Vec<Op>> {
         2 => (0u8..6, proptest::collection::vec(dspec_(), 0..=5)).prop_map(|(sfx, data)| Op::AddDataset { sfx, data }),
         8 => (any::<u16>(), dspec_()).prop_map(|(set, d)| Op::InsertData { set, d }),
         6 => annotate,
-        3 => (any::<u16>(), any::<u16>(), any::<bool>()).prop_map(|(set, pick, strict)| Op::RemoveData { set, pick, strict }),
-        3 => (any::<u16>(), any::<u16>(), any::<bool>()).prop_map(|(set, pick, strict)| Op::RemoveKey { set, pick, strict }),
+        3 => (any::<u16>(), any::<u16>(), any::<bool>()).prop_map(|(set, pick, strict)| Op::RemoveData { set, pick, strict, by_id: false }),
+        3 => (any::<u16>(), any::<u16>(), any::<bool>()).prop_map(|(set, pick, strict)| Op::RemoveKey { set, pick, strict, by_id: false }),
     ];
     proptest::collection::vec(op, 0..=max).boxed()
 }
